@@ -7,7 +7,7 @@ let pc_s = function
   | PStart -> "start" | PBeforeLock -> "wtxn-before-lock"
   | PLocking k -> "locking:" ^ string_of_int (int_of_nat k) | PLocked k -> "locked:" ^ string_of_int (int_of_nat k)
   | PWLocked -> "wtxn-locked" | PRootLoaded -> "wtxn-root-loaded" | PCommitIdx -> "commit-indexes"
-  | PRootLocked -> "commit-root-locked" | PRootStored -> "commit-root-stored" | PRootUnlocked -> "commit-root-unlocked"
+  | PRootLocked -> "commit-root-locked" | PCommitLoaded -> "commit-root-loaded" | PRegLoaded -> "register-root-loaded" | PRootStored -> "commit-root-stored" | PRootUnlocked -> "commit-root-unlocked"
   | PNotified -> "commit-notified" | PTabsUnlocked -> "commit-tables-unlocked" | PInitClosed -> "commit-init-closed"
   | PAbortBefore -> "abort-before-unlock" | PAbortUnlocked -> "abort-unlocked"
   | PRegBefore -> "register-before-lock" | PRegLocked -> "register-locked" | PRegStored -> "register-stored"
